@@ -27,7 +27,7 @@ ProgOf(t) == [c \in DOMAIN t.prog |-> [t.prog[c] EXCEPT !.ignore = Rng(@)]]
 SubEvents(t) == SelectSeq(t.events, LAMBDA e : e.ev = "sub")
 
 S0(t) ==
-    [prog |-> ProgOf(t), ss |-> t.ss, mode |-> t.mode,
+    [prog |-> ProgOf(t), ss |-> t.ss, mode |-> t.mode, arch |-> t.arch,
      subs |-> [i \in DOMAIN SubEvents(t) |-> Rng(SubEvents(t)[i].keys)],
      cur  |-> [w \in 1..t.workers |-> 0],
      inst |-> [c \in Comp |-> IF t.prog[c].seeded
@@ -36,13 +36,13 @@ S0(t) ==
 
 InitFrom(t) ==
     LET s == S0(t) IN
-    /\ phase = "run" /\ prog = s.prog /\ ss = s.ss /\ mode = s.mode /\ subs = s.subs
+    /\ phase = "run" /\ prog = s.prog /\ ss = s.ss /\ mode = s.mode /\ arch = s.arch /\ subs = s.subs
     /\ nextSub = 1 /\ cur = s.cur /\ inst = s.inst /\ missing = s.missing
     /\ excs = {} /\ att = <<>> /\ calls = <<>>
 
 NextFrom(t) ==
     LET s == S0(t) IN
-    /\ phase' = "run" /\ prog' = s.prog /\ ss' = s.ss /\ mode' = s.mode /\ subs' = s.subs
+    /\ phase' = "run" /\ prog' = s.prog /\ ss' = s.ss /\ mode' = s.mode /\ arch' = s.arch /\ subs' = s.subs
     /\ nextSub' = 1 /\ cur' = s.cur /\ inst' = s.inst /\ missing' = s.missing
     /\ excs' = {} /\ att' = <<>> /\ calls' = <<>>
 
@@ -60,7 +60,7 @@ SubOK ==
        ELSE IF T.strict THEN subs[nextSub] \in ConnComps(Graph)     \* C04's check
        ELSE subs[nextSub] \subseteq Graph                           \* other checks take the split as observed
     /\ T.strict => \A i \in 1..(nextSub - 1) : subs[i] \cap subs[nextSub] = {}
-    /\ T.closure => Graph = DepClosure(Targets)        \* the engine built the graph from targets
+    /\ T.closure => Flagged = DepClosure(Targets)      \* the engine built the graph from targets
 
 AttGuard(w, c) ==
     /\ w \in DOMAIN cur /\ c \in Comp
@@ -116,11 +116,11 @@ Apply ==
               /\ calls'   = calls \o e.calls
               /\ excs'    = excs \cup Rng(Ev.recs)
               /\ att'     = Append(att, [w |-> Ev.w, s |-> cur[Ev.w], c |-> c])
-              /\ UNCHANGED <<phase, prog, ss, mode, subs, nextSub, cur>>
+              /\ UNCHANGED <<phase, prog, ss, mode, arch, subs, nextSub, cur>>
       [] OTHER ->
            /\ phase' = "done"
            /\ excs' = excs \cup Rng(Ev.recs)
-           /\ UNCHANGED <<prog, ss, mode, subs, nextSub, cur, inst, missing, att, calls>>
+           /\ UNCHANGED <<prog, ss, mode, arch, subs, nextSub, cur, inst, missing, att, calls>>
 
 (* ---- total verdicts: name the failing clause, go on with the next trace *)
 DiagAtt ==
@@ -167,10 +167,11 @@ DiagEnd ==
 
 Diagnose ==
     CASE Ev.ev = "att" -> DiagAtt
-      [] Ev.ev = "sub" -> IF T.closure /\ Graph # DepClosure(Targets) THEN "OnlyGraphRuns.graph-is-not-the-dependency-closure-of-the-targets"
+      [] Ev.ev = "sub" -> IF T.closure /\ Flagged # DepClosure(Targets) THEN "OnlyGraphRuns.graph-is-not-the-dependency-closure-of-the-targets"
+                          ELSE IF arch /\ nextSub <= Len(subs) /\ subs[nextSub] # Graph THEN "OnlyGraphRuns.archive-pruning"
                           ELSE IF ~SubOK THEN "PartitionExact.split" ELSE "sub.worker-busy"
       [] Ev.ev = "end" -> DiagEnd
-      [] Ev.ev = "escaped" -> "NoEscape"
+      [] Ev.ev = "escaped" -> "NoEscape:" \o Ev.exc \o (IF arch THEN ":archive-context" ELSE "")
       [] Ev.ev = "same" -> "Confluence.runs-differ:" \o
                            (IF Ev.a.inst # Ev.b.inst THEN "values"
                             ELSE IF Ev.a.missing # Ev.b.missing THEN "missing-reports" ELSE "recorded-failures")
